@@ -217,9 +217,12 @@ ALGO = re.compile(r'^"(argon2\w*)"$')
 
 
 def encoder(rep, prog, enc, par, roles):
-    e_alg = {m.group(1) for s in str_consts(prog.unit(enc)) for m in [ALGO.match(s)] if m}
+    enc0 = enc
+    ebodies = [g for g in (prog.by_key[k] for k in prog.reach_fns([enc0])) if g.file == enc0.file and (g.key == enc0.key or g.kind == "closure" or g.vis != "pub")]
+    enc = inline(prog, enc0)       # literal selection / base64 helpers folded in
+    e_alg = {m.group(1) for s in str_consts(ebodies) for m in [ALGO.match(s)] if m}
     # format-string template may carry the literal too
-    for s in str_consts(prog.unit(enc)):
+    for s in str_consts(ebodies):
         for m in re.finditer(r"\$(argon2\w*)\$", s):
             e_alg.add(m.group(1))
     pbodies = [g for g in (prog.by_key[k] for k in prog.reach_fns([par])) if g.file == par.file and (g.key == par.key or g.kind == "closure" or g.vis != "pub")]
@@ -257,8 +260,8 @@ def encoder(rep, prog, enc, par, roles):
               algp[0] in enc.backward_slice(operand_locals(enc.blocks[b]["t"]["x"]))]
         rep.ob("ENCODER", "literal selected by the algorithm", bool(sw), "%d branch(es) on the algorithm parameter" % len(sw), loc=enc.loc())
     # object API: to_string passes every stored field
-    for ts in cm.find_method(prog, "pwhash::PwHash", "to_string"):
-        calls = [c for c in ts.calls() if enc in prog.callee_fns(c)]
+    for ts in [inline(prog, t_, keep=(lambda g: g.key == enc0.key,)) for t_ in cm.find_method(prog, "pwhash::PwHash", "to_string")]:
+        calls = [c for c in ts.calls() if enc0 in prog.callee_fns(c)]
         if not calls:
             rep.violation("ENCODER", "PwHash::to_string reaches the encoder", "no call to the encoder", loc=ts.loc())
             continue
@@ -279,7 +282,7 @@ def encoder(rep, prog, enc, par, roles):
             rep.ob("ENCODER", "PwHash::to_string passes %s" % role, ok,
                    "encoder operand %d is %s (object field roles %s)" % (i, ax[i][:120] if i < len(ax) else "?", orole), loc=calls[0].loc())
     # from_string fills the same fields from parsed content
-    for fs in cm.find_method(prog, "pwhash::PwHash", "from_string"):
+    for fs in [inline(prog, f_, keep=(lambda g: g.key == par.key,)) for f_ in cm.find_method(prog, "pwhash::PwHash", "from_string")]:
         allx = " ".join(deep_repr(expr_of_operand(fs, a)) for c in fs.calls() for a in c.args) + " ".join(
             deep_repr(expr_of_operand(fs, o)) for b, i, s_ in fs.assigns() for o in ([s_["rv"].get("x")] if s_["rv"].get("x") else s_["rv"].get("ops", [])) if o)
         for role in ("alg", "t", "m", "salt", "hash"):
@@ -288,7 +291,7 @@ def encoder(rep, prog, enc, par, roles):
     # crypto_pwhash_str passes the algorithm it hashed with
     for f in prog.by_path.get("classic::crypto_pwhash::crypto_pwhash_str", []):
         a2 = [c for c in f.calls() if c.rpath.endswith("argon2::argon2_hash")]
-        ec = [c for c in f.calls() if enc in prog.callee_fns(c)]
+        ec = [c for c in f.calls() if enc0 in prog.callee_fns(c)]
         if a2 and ec:
             t_hash = deep_repr(call_arg_exprs(a2[0])[8])
             t_enc = deep_repr(call_arg_exprs(ec[0])[0])
